@@ -62,6 +62,8 @@ def build2(m):
                        trusted=True, note='re-tokenization of the TOC lines (the block parser itself)'))
         m.classes.setdefault('Token', {'line_number': INT})
     m.methods[('TocRenderer', 'toc')] = MOD + ':TocRenderer.toc'
+    # LINES_NL: every line handed to the block tokenizer ends with its terminator
+    NLINV = "forall(lambda i: lines[i].endswith('\\n'), 0, len(lines))"
     m.add(Contract(MOD + ':TocRenderer.toc', [('self', TOC)], returns=None, is_property=True,
                    allow_exc=['CustomTokenError'],
                    modifies=['G:SCRATCH', 'G:FOOTNOTES', 'G:INLINE_PHASE', 'N:Token.line_number', 'N:Token.children',
@@ -79,8 +81,8 @@ def build2(m):
                    loops={0: Loop(invariant=[
                        # open levels are strictly increasing: each open entry is nested in the previous one
                        'forall(lambda i: open_levels[i] < open_levels[i + 1], 0, len(open_levels) - 1)',
-                       'len(lines) == _k0']),
+                       'len(lines) == _k0', NLINV]),
                        1: Loop(invariant=['forall(lambda i: open_levels[i] < open_levels[i + 1], 0, len(open_levels) - 1)',
-                                          'len(lines) == _k0'],
+                                          'len(lines) == _k0', NLINV],
                                decreases='len(open_levels)')},
                    prop=['C19']))
